@@ -22,7 +22,8 @@ def fmt_variants():
     return {
         "tabs": lambda l, m, o: "%s\t%s\t%s" % (l, m, o),
         "wide": lambda l, m, o: "%s      %s        %s     " % (l, m, o),
-        "comment": lambda l, m, o: "%s %s %s ; a comment, with $ymbols #1" % (l, m, o) if m != "FCC" else "%s %s %s" % (l, m, o),
+        "comment": lambda l, m, o: "%s %s %s ; a comment, with $ymbols #1" % (l, m, o),
+        "comment-quotes": lambda l, m, o: ("%s %s %s ; the user's \"note\" a/b" % (l, m, o)) if o else "%s %s %s" % (l, m, o),
         "lower": lambda l, m, o: "%s %s %s" % (l, m.lower(), o),
         "mixedcase": lambda l, m, o: "%s %s %s" % (l, m.capitalize(), o),
         "unique-comments": None,       # a different comment on every line (set up in obligations)
@@ -37,7 +38,7 @@ RENAMES = {
     "at": lambda n: n + "@1",
     "reglike": lambda n: {"START": "AX", "PRINT": "XY", "MESSAGE": "PCR1", "FINISH": "DP2", "CHROUT": "SU", "BEGIN": "BA", "LOOP": "YU",
                           "TABLE": "CCX", "VECT": "US", "SUB": "ADDA1", "LAST": "NOPE", "K1": "KX", "A1": "LDA1", "A2": "B2", "A3": "D3",
-                          "A4": "S4", "A5": "U5", "A6": "PC6"}.get(n, n + "R"),
+                          "A4": "S4", "A5": "U5", "A6": "PC6", "KOFF": "PCRSAV"}.get(n, n + "R"),
 }
 
 
